@@ -91,7 +91,7 @@ const POLICIES: &[&str] = &["natural", "preserved", "older", "newer", "same-seco
 const METHODS: &[&str] = &["overwrite-in-place", "rename-over", "remove-then-create"];
 
 fn c19_histories(tier: Tier) -> usize {
-    tier.pick(90, 2400)
+    tier.pick(90, 900)
 }
 
 /// worker C19: histories `shard, shard+n, ...`; one line per observation.
@@ -254,7 +254,7 @@ pub fn run_c19(tier: Tier, seed: u64) -> i32 {
 // C20
 
 fn c20_tables(tier: Tier) -> usize {
-    tier.pick(6, 40)
+    tier.pick(6, 20)
 }
 
 fn c20_write_tables(dir: &Path, tier: Tier, seed: u64, round: usize) -> Vec<(String, Table, usize)> {
@@ -370,7 +370,7 @@ pub fn run_c20(tier: Tier, seed: u64) -> i32 {
         "rounds over freshly written Parquet tables (5-20000 rows, 1-400 row groups, dictionary-eligible and not): (1) a QE_IPC_CACHE=0 process answers four statements per table; (2) 1-8 QE_IPC_CACHE=1 builder processes and 2 unset-mode reader processes start together (barrier file), walk the tables in different orders with seeded delays before publication and before opening a row-group file, and repeat the statements; meanwhile the driver polls every sidecar directory and demands that a published directory always has its .complete stamp, all row-group files and finished Arrow files; (3) an unset-mode process re-reads everything from the finished sidecars. Every answer of every process must equal the sidecar-free answer. distinct = distinct (table kind, statement, process role, builders in the round)",
     );
     let scratch = crate::data::Scratch::new("c20");
-    let rounds = tier.pick(3usize, 24);
+    let rounds = tier.pick(3usize, 12);
     let exe = crate::eng::self_exe();
     let mut counters: BTreeMap<String, u64> = BTreeMap::new();
     let mut polls = 0u64;
